@@ -60,6 +60,14 @@ theorem append_eq_reencode (n : Nat) (payload : Bytes) (items : List Bytes)
     simp only [hov, hle, if_false, Res.map]
     rw [List.drop_left' rfl]
 
+/-- **Appending nothing** to a well-formed buffer returns the same sequence (and still goes through
+    the count check: see `append_bad_prefix`, which holds for `items = []` as for any other batch). -/
+theorem append_nothing_is_identity (n : Nat) (payload : Bytes) (h : n ≤ u32Max)
+    (hfit : (Spec.compact n ++ payload).length * 2 ≤ usizeMax) :
+    appendOrNew (Spec.compact n ++ payload) [] = .ok (Spec.compact n ++ payload) := by
+  have := append_eq_reencode n payload [] (by simpa using h) hfit
+  simpa using this
+
 /-- In particular: appending the encodings of `ys` to the encoding of the vector (or deque — the
     two targets share `append_or_new_impl`) `xs` gives the encoding of `xs ++ ys`. -/
 theorem append_to_encoded_sequence (k : SeqKind) (sz : Nat) (t : Ty) (xs ys : List Val)
